@@ -195,7 +195,7 @@ def bounded_c16(tier, seed):
                 f"compiled for the host with shims and launched with the contexts' geometry (CUDA block sizes {blocks}, grid from the "
                 "expression in KernelCupy.__call__); random annotated sources (pass-through, only_for_context, include_file with a "
                 "context line inside) x 4 targets; distinct by (target, n, block) / (source, target)",
-        "exhaustive": False, "violations": violations[:5], "samples": samples,
+        "exhaustive": False, "violations": _by_key(violations), "samples": samples,
     }
 
 
@@ -266,5 +266,13 @@ def bounded_c15(tier, seed):
         "rule": "accessor source of every class of the grammar slice (dependency-sorted, concatenated), specialised for the 4 targets: "
                 "token identity after deleting qualifier keywords, host syntax check with the keywords defined away, every pointer type "
                 "of the OpenCL form carries __global; distinct by (check, target)",
-        "exhaustive": False, "violations": violations[:5], "samples": samples,
+        "exhaustive": False, "violations": _by_key(violations), "samples": samples,
     }
+
+
+def _by_key(violations, cap=12):
+    """one representative per case key (known findings must not crowd out new violations)"""
+    seen = {}
+    for v in violations:
+        seen.setdefault(v.get("case_key"), v)
+    return list(seen.values())[:cap]
